@@ -13,22 +13,23 @@ import (
 
 // progOpts configures one family of model-vs-gateway program runs.
 type progOpts struct {
-	name       string
-	prop       string
-	programs   int
-	maxOps     int
-	versioning bool
-	sidecar    bool
-	noOTmp     bool
-	nGateways  int
-	tune       func(g *prog.Gen)
-	gen        func(g *prog.Gen, i int) []*prog.Op                  // optional custom program generator
-	next       func(g *prog.Gen, i int, hist []*prog.Step) *prog.Op // optional adaptive generator
-	setupOps   func(g *prog.Gen) []*prog.Op                         // run before the readonly switch (if readonlyAfter)
-	readonly   bool                                                 // restart the gateways read-only after setupOps
-	classify   func(s *prog.Step, class string) (kind, sig string)
-	seedOff    int64
-	post       func(steps []*prog.Step, res *lib.Result, idx int) // optional property oracle over the whole program
+	name              string
+	prop              string
+	programs          int
+	maxOps            int
+	versioning        bool
+	sidecar           bool
+	noOTmp            bool
+	nGateways         int
+	tune              func(g *prog.Gen)
+	gen               func(g *prog.Gen, i int) []*prog.Op                  // optional custom program generator
+	next              func(g *prog.Gen, i int, hist []*prog.Step) *prog.Op // optional adaptive generator
+	setupOps          func(g *prog.Gen) []*prog.Op                         // run before the readonly switch (if readonlyAfter)
+	readonly          bool                                                 // restart the gateways read-only after setupOps
+	classify          func(s *prog.Step, class string) (kind, sig string)
+	seedOff           int64
+	restartBeforeLast int                                                // restart every gateway before the last N ops of each program (0 = never)
+	post              func(steps []*prog.Step, res *lib.Result, idx int) // optional property oracle over the whole program
 }
 
 func wipe(dir string) {
@@ -136,6 +137,25 @@ func runPrograms(a lib.Args, res *lib.Result, po progOpts) error {
 				res.Fail(lib.Failure{Kind: "property", Signature: "readonly-mutation:" + kind, What: "storage changed although the gateway runs with --readonly",
 					Input: map[string]interface{}{"family": po.name, "program_index": i, "seed": a.Seed, "mutation": m}, Impl: m})
 			}
+		} else if po.restartBeforeLast > 0 {
+			all := append(ops, body...)
+			cut := len(all) - po.restartBeforeLast
+			if cut < 0 {
+				cut = 0
+			}
+			steps, err = prog.RunAdaptive(w, a.Driver, setup, func(h []*prog.Step) *prog.Op {
+				if len(h) >= len(all) {
+					return nil
+				}
+				if len(h) == cut {
+					for _, gwp := range w.Gws {
+						if e := gwp.Restart(); e != nil {
+							panic(e)
+						}
+					}
+				}
+				return all[len(h)]
+			})
 		} else {
 			steps, err = prog.Run(w, a.Driver, setup, append(ops, body...))
 		}
